@@ -334,7 +334,12 @@ def run_mont(case, rec):
     true_inf = Z % p == 0
     lib_inf = bool(R.is_point_at_infinity())
     if u % p == 0:
-        # base point of order two: the x-only formulas degenerate (the RFC 7748 function returns 0 in every case); only demand u = 0 / infinity
+        # base point (0, 0) of order two: the x-only formulas degenerate, the group law is k*(0,0) = (0,0) for odd k and the neutral element for even k
+        true_inf = k % 2 == 0
+        exp = 0
+        if lib_inf != true_inf:
+            raise Violation("mont/%s/order-2-point" % curve, "%d*(0,0) reported as %s; (0,0) has order two, the group law gives %s"
+                            % (k if k < 1000 else -1, "the neutral element" if lib_inf else "an ordinary point", "the neutral element" if true_inf else "(0,0)"), **info)
         if not lib_inf and int(R.x) != 0:
             raise Violation("mont/%s/wrong-result" % curve, "k*(0,0) has u=%d" % int(R.x), **info)
         got = 0
